@@ -548,6 +548,15 @@ def classImplementsOnly(cls, *interfaces):
     interface resolution order.
     """
     spec = implementedBy(cls)
+    # ``implementedBy(cls)`` may be among the arguments, to preserve what
+    # the class lists now: take that from the specification before it is
+    # emptied below (afterwards it would only refer to itself).
+    interfaces = tuple(_normalizeargs(interfaces))
+    if any(i is spec for i in interfaces):
+        kept = tuple(spec.interfaces())
+        interfaces = tuple(
+            j for i in interfaces for j in (kept if i is spec else (i,))
+        )
     # Clear out everything inherited. It's important to
     # also clear the bases right now so that we don't improperly discard
     # interfaces that are already implemented by *old* bases that we're
